@@ -13,6 +13,7 @@ import (
 	"time"
 
 	"github.com/aundis/formula"
+	"github.com/ericlagergren/decimal"
 	"pgregory.net/rapid"
 
 	"verif/internal/h"
@@ -109,6 +110,13 @@ func checkEvalTotal(c evalCase) (msg string, class string) {
 	}
 	rec := &spec.Recorder{}
 	data := spec.BuildMap(ds, rec)
+	// host functions of the plainest Go signatures (concrete parameter and result types, as a host writes them)
+	data["hsUp"] = func(s string) (string, error) { return strings.ToUpper(s), nil }
+	data["hsEq"] = func(a, b string) (bool, error) { return a == b, nil }
+	data["hsCat3"] = func(a, b, c string) (string, error) { return a + b + c, nil }
+	data["hsDec"] = func(n *decimal.Big) (*decimal.Big, error) { return n, nil }
+	data["hsNum"] = func(a, b float64) (float64, error) { return a + b, nil }
+	data["hsInt"] = func(n int) (int, error) { return n, nil }
 	r := formula.NewRunner()
 	r.SetThis(data)
 	// the caller's context varies: plain, cancellable (never cancelled), with a distant deadline
@@ -290,6 +298,8 @@ func mustErrorCases() []string {
 	}
 	// wrong argument count for host functions of fixed arity
 	out = append(out, "fn0(1)", "fnS()", "fnS('a','b')", "fnI()", "fnI(1,2)", "fnC()", "fnC(1,2)")
+	out = append(out, "hsUp('a','b')", "hsUp()", "hsEq('a')", "hsEq('a','b','c')", "hsCat3('a','b')", "hsCat3('a','b','c','d')", "hsDec(1,2)", "hsDec()", "hsNum(1)", "hsNum(1,2,3)", "hsInt()", "hsInt(1,2)",
+		"hsUp(s, s)", "hsEq(s, s, s)", "hsInt(i, i)", "hsNum(f64)", "hsDec(dec, dec)")
 	// spread on a non-variadic function / of a non-array
 	out = append(out, "fnS(strs...)", "fnV(1 ...)", "fnV('a'...)", "fnV(m...)", "fnV(null...)")
 	// argument of a kind without conversion
